@@ -56,8 +56,11 @@ impl TryFrom<&Value> for Coord {
 
 impl Hash for Coord {
     fn hash<H: std::hash::Hasher>(&self, state: &mut H) {
-        self.lat.to_bits().hash(state);
-        self.long.to_bits().hash(state);
+        // +0.0 and -0.0 are equal, so they must hash the same
+        let lat = if self.lat == 0.0 { 0.0 } else { self.lat };
+        let long = if self.long == 0.0 { 0.0 } else { self.long };
+        lat.to_bits().hash(state);
+        long.to_bits().hash(state);
     }
 }
 
